@@ -105,7 +105,7 @@ func VerifC19_Names(cs int) {
 
 const vC19Doc = vDeadFamily +
 	"0 @I3@ INDI\n1 NAME Bob /Smith/\n1 BIRT\n2 DATE 1875\n2 PLAC Perth, Australia\n1 DEAT\n2 DATE 1950\n1 FAMC @F1@\n" +
-	"0 @I4@ INDI\n1 NAME Amy /Young/\n1 BIRT\n2 DATE 1880\n2 PLAC Perth, Australia\n1 DEAT\n2 DATE 1960\n" +
+	"0 @I4@ INDI\n1 NAME Amy /Young/\n1 BIRT\n2 DATE 1880\n2 PLAC PERTH  australia\n1 DEAT\n2 DATE 1960\n2 PLAC perth, AUSTRALIA\n" +
 	"0 @F1@ FAM\n1 HUSB @I1@\n1 WIFE @I2@\n1 CHIL @I3@\n0 @S1@ SOUR\n1 TITL A source\n"
 
 const vC19OtherDoc = "0 HEAD\n0 @X1@ INDI\n1 NAME Otto /Zimmer/\n1 BIRT\n2 PLAC Berlin, Germany\n1 DEAT\n2 DATE 1900\n" +
